@@ -23,6 +23,8 @@ class RawNode(Node):
     def __init__(self, token: TokenT, text: str) -> None:
         super().__init__(token)
         self.text = text
+        # Raw text is output verbatim. Only an empty raw block is "blank".
+        self.blank = not text
 
     def __str__(self) -> str:
         assert isinstance(self.token, RawToken)
